@@ -116,6 +116,16 @@ CLAIMED = {
         design_ref="DESIGN.md section 6 C11",
         note=_SYNC_NOTE + " moby/patternmatcher is trusted for pattern verdicts; its incremental/plain disagreement is the listed known finding.",
         technique="TLA+ property layer (ValidStream, SyncOutcome, C11 clauses of SyncTrace) + TLC trace validation of real filtered transfers and Open probes"),
+    "C19": dict(
+        text="Metadata-only transfers with the real Receive (real or synthetic sender) over trees with selectors none/all/files/directories/"
+             "nested, sources containing an entry with the listing file's name (top level and nested), prior destinations holding a stale listing "
+             "file or a symlink of that name, listings spanning several 32 KiB buffer chunks and single stats larger than a chunk; TLC checks "
+             "that the decoded listing equals the STAT log minus the listing name, record by record and in order, that the destination "
+             "(listing aside) converges to the projection 'selected entries plus needed ancestors', and that content was requested only for, "
+             "and for all needed, selected regular files.",
+        design_ref="DESIGN.md section 6 C19",
+        note=_SYNC_NOTE + " The listing is decoded by the harness with the vtproto decoder and compared via a canonical stat hash.",
+        technique="TLA+ property layer (Projection / MetaClauses in SyncTrace, SyncOutcome) + TLC trace validation of real metadata-only transfers"),
     "C12": dict(
         text="TLC proves, for every change sequence up to the bound over a hostile path alphabet, that the transcribed Validator "
              "(alg) accepts exactly what the property-layer ValidStream accepts and rejects at the same index, and that the "
